@@ -137,9 +137,16 @@ def run(ctx):
     def sel_arg(sel):
         return None if sel == [] else (sel[0] if len(sel) == 1 else list(sel))
 
+    nform = [0]
+
     def do_set(ppg, q, req, scalar, sel):
         vals = [v * UNIT[q] if q not in ("plen", "order") else v for v in req]
-        arg = vals[0] if scalar else list(vals)
+        # the caller may pass whole-number requests as integers (Python int, integer ndarray), floats, lists, tuples or arrays
+        nform[0] += 1
+        whole = all(abs(v - round(v)) < 1e-9 for v in vals) and q in ("amp", "offs", "plen", "order")
+        if whole and nform[0] % 3 == 0:
+            vals = [int(round(v)) for v in vals]
+        arg = vals[0] if scalar else [list(vals), np.array(vals), tuple(vals)][nform[0] % 3]
         ppg.inst.log.clear()
         raised = False
         with warnings.catch_warnings(record=True) as w:
@@ -396,6 +403,14 @@ def run(ctx):
         sigma = rnd.choice([0.0, 0.02, 0.1])
         np.random.seed(k)
         rx = rx + sigma * np.random.randn(rx.size)
+        # the received record as stored by an acquisition front end: float64, float32, or raw integer counts in a narrow dtype
+        store = ["f8", "f8", "i1", "i2", "f4", "u1", "i2x100", "i4"][k % 8]
+        if store in ("i1", "u1", "i2", "i4"):
+            rx = np.round(rx).astype({"i1": np.int8, "u1": np.uint8, "i2": np.int16, "i4": np.int32}[store]) if sigma < 0.05 else rx
+        elif store == "i2x100":
+            rx = np.round(100 * rx).astype(np.int16)
+        elif store == "f4":
+            rx = rx.astype(np.float32)
         raised, idx, same = "none", -1, False
         try:
             with deadline(60):
@@ -410,7 +425,7 @@ def run(ctx):
             raised = type(e).__name__
         events.append({"kind": "sync", "d": int(d), "idx": idx, "samestart": same, "raised": raised, "short": False})
         meta.append(("sync", order, sps, "d=0" if d == 0 else "d>0", sigma))
-        ctx.case(("sync", order, sps, d == 0, sigma > 0))
+        ctx.case(("sync", order, sps, d == 0, sigma > 0, str(rx.dtype)))
         if k < 6:
             try:
                 lab.SYNC(rx[:l - 1 - k], slots.data, sps)
